@@ -186,3 +186,68 @@ PROPS["C12"] = dict(
     level_text="Generated differential search against a reference implementation of the documented mini-language written from the docs; exact equality wherever the documentation defines the output. Not a proof.",
     level_note="Trusted: harness/common/refpattern.h (its reading of docs/api/formatters.md is stated in DESIGN.md section 3, C12).",
 )
+
+_ROT_COMMON = dict(
+    harness="rc_rot",
+    extra_sources=("common/shim.cpp",),
+    builds=[dict(harness="rc_rot", extra_sources=("common/shim.cpp",))],
+    engine="rc",
+    level="exploration",
+    quick=dict(cases=1500, shards=4, max_size=100, timeout=1200),
+    thorough=dict(cases=15000, shards=16, max_size=200, timeout=3400),
+)
+_ROT_DOMAIN = (
+    "case = configuration (size limit L in {0,1,2,7,9,10,11,17,30,64,200}, file-count limit N in {-1,0,1,2,3,4,12}, options subset of "
+    "{startup, daily, compression}, file name from {app.log, applog, a+b.log, app.v1.log, 'app (1).log', x.y.txt}, file-timestamp granularity "
+    "exact/1ms/1s/2s, start time incl. just before midnight) + history of 1..60 (120 thorough) operations: write (record of 0..40 bytes, sizes "
+    "steered to L-3..L+2 and over-limit, multi-byte UTF-8, embedded newline; every write is flushed so that it can be observed), advance the virtual clock (ms..s, to "
+    "around midnight, 1..40 days), restart the sink, flush, plant one of 12 look-alike foreign files; the directory is read back after every "
+    "flushed operation (gzip through zlib's decoder) and file mtimes follow the virtual clock. "
+)
+_ROT_ASSUME = [
+    "virtual wall clock only moves forward; a message is created and written at the same virtual instant",
+    "L, N and options stay fixed across the restarts of one history",
+    "process locale is UTF-8 (C.UTF-8), TZ=UTC",
+    "files matching the sink's rotated-name scheme are produced only by the sink itself",
+]
+
+PROPS["C05"] = dict(_ROT_COMMON,
+    rule=_ROT_DOMAIN + "Non-trivial (C05) = at least 2 rotations AND (a restart OR a compressed rotated file) in the history; distinct = canonical JSON.",
+    assumptions=_ROT_ASSUME,
+    floors={"rotations>=2": 0.3, "restart": 0.3, "compression": 0.1},
+    technique="model-based property testing (rapidcheck): generated operation histories on a virtual clock; directory contents vs the written record stream after every operation",
+    level_text="Generated histories checked after every operation: rotated files (inflated by zlib) + active file must be runs of whole consecutive records of the written stream, nothing duplicated/reordered/split, records only disappear with whole files and only when the limit permits. Not a proof; histories are bounded (<=120 operations) and file-system faults are C10's subject.",
+    level_note="Trusted: the observation code in harness/common/rotmodel.h and check() in harness/rc_rot.cpp; zlib; the libc interposition shim for the clock.",
+)
+PROPS["C06"] = dict(_ROT_COMMON,
+    rule=_ROT_DOMAIN + "Biased to N in 2..4 and 72% writes. Non-trivial (C06) = N>=2 with at least N+2 rotations and at least one removal (or, for N<=1, at least 2 rotation attempts); class counters record rotations inside one timestamp tick and indices crossing 9->10; distinct = canonical JSON.",
+    assumptions=_ROT_ASSUME,
+    floors={"retention_removed_files": 0.25, "foreign_files_planted": 0.2, "rotations_within_one_timestamp_tick": 0.1, "index_crossed_9_to_10": 0.02},
+    technique="model-based property testing (rapidcheck): generated histories with coarse timestamp granularity and look-alike foreign files; count bound, contiguous-suffix and untouched-foreign-file invariants after every operation",
+    level_text="Generated histories: after every write #files <= N, surviving records form one contiguous most-recent stretch, N<=0 never deletes, N=1 never rotates, planted look-alikes stay byte-identical. Not a proof.",
+    level_note="Trusted: as C05. Timestamp ties are produced by stamping file mtimes with the virtual clock rounded down to the generated granularity.",
+)
+PROPS["C07"] = dict(_ROT_COMMON,
+    rule=_ROT_DOMAIN + "Biased to L>0. Non-trivial (C07) = a record whose size is within +-2 bytes of the room left in the active file was written and at least one rotation happened; distinct = canonical JSON.",
+    assumptions=_ROT_ASSUME,
+    floors={"size_boundary_hit": 0.3, "multi_byte_record": 0.2, "over_limit_record": 0.1},
+    technique="model-based property testing (rapidcheck): generated record sizes around the limit; per-file size/record-count invariant after every operation",
+    level_text="Generated histories: every file (rotated content before compression, or active) is <= L bytes or a single record; records never straddle files. Not a proof.",
+    level_note="Trusted: as C05.",
+)
+PROPS["C08"] = dict(_ROT_COMMON,
+    rule=_ROT_DOMAIN + "Compression always on; 12% of writes are large records (8 KiB-1 .. 256 KiB+1, 1 MiB in thorough) of four content classes (repetitive, random printable, binary-looking, mostly empty lines). Non-trivial (C08) = at least one validated .gz AND (content > 8 KiB or multi-byte records or >= 3 rotations); distinct = canonical JSON.",
+    assumptions=_ROT_ASSUME + ["gzip validity = RFC 1952 header fields + zlib gzip-mode inflate consuming the whole file + own CRC-32/ISIZE comparison"],
+    floors={"compression": 0.5, "gz_content>8KiB": 0.05},
+    technique="model-based property testing (rapidcheck): generated contents and histories; every *.gz decoded by zlib's gzip decoder and compared with the records expected in that file (round trip)",
+    level_text="Generated histories with compression: every .gz must be exactly one valid gzip member whose inflated bytes are the records the rotated file held. Not a proof; content sizes up to 256 KiB (quick) / 1 MiB (thorough).",
+    level_note="Trusted: zlib as independent gzip implementation; rotmodel.h.",
+)
+PROPS["C09"] = dict(_ROT_COMMON,
+    rule=_ROT_DOMAIN + "Biased to daily rotation and day changes. Non-trivial (C09) = daily with a day change between two writes and a rotation (or, without daily, >= 2 rotations and a restart); class counters: restart after a day change, removal before a later rotation on the same date; distinct = canonical JSON.",
+    assumptions=_ROT_ASSUME,
+    floors={"day_change_with_data": 0.3, "restart_after_day_change": 0.1},
+    technique="model-based property testing (rapidcheck): generated histories with day changes, restarts and retention on a virtual clock; per-file day and name-uniqueness invariants over the whole history",
+    level_text="Generated histories: with daily rotation every file holds one day and rotated names carry it; no rotated name is ever seen with two contents; indices per date only increase. Not a proof.",
+    level_note="Trusted: as C05; the virtual clock shim and mtime stamping stand in for the kernel.",
+)
